@@ -79,8 +79,8 @@ def run(ctx):
     maxops = 4 if thorough else 3
     ctx.tlc("GlobalState", {"MaxOps": maxops + 1, "Fault": "none", "EmitCases": False}, invariants=invs)
     ctx.tlc("GlobalState", {"MaxOps": 2, "Fault": "none", "EmitCases": False}, invariants=invs, coverage=True, count=False)
-    ctx.require_actions(["SetMC", "RestoreMC", "ClearCache", "SetUseCache", "ParseOther", "MakeTRS", "Mutate", "Hold", "UseCfg", "Probe"])
-    for fault in ("share_dict", "freeze_default", "held_keeps_defaults", "cfg_obj_written"):
+    ctx.require_actions(["SetMC", "RestoreMC", "ClearCache", "SetUseCache", "ParseOther", "MakeTRS", "Mutate", "Hold", "UseCfg", "AskLayout", "Probe"])
+    for fault in ("share_dict", "freeze_default", "held_keeps_defaults", "cfg_obj_written", "layout_remembered"):
         ctx.tlc("GlobalState", {"MaxOps": 3, "Fault": fault, "EmitCases": False}, invariants=invs, expect_violation=fault,
                 count=False)
     # (histories of 3 actions ending in a probe: 13 690; of 4 actions: 506 530 - too many to replay)
@@ -106,7 +106,7 @@ def run(ctx):
         cases.append({"id": "m%d" % len(seen_sim), "kind": "c15", "abs": {}, "args": {"ops": c["ops"]}})
     ctx.notes["simulated_behaviours"] = len(seen_sim)
     # longer random histories ending in several probes
-    names = ["set_mc", "restore_mc", "clear_cache", "use_cache", "parse_other", "make_trs", "mutate", "probe", "hold", "use_cfg"]
+    names = ["set_mc", "restore_mc", "clear_cache", "use_cache", "parse_other", "make_trs", "mutate", "probe", "hold", "use_cfg", "ask_layout"]
     vias = ["trs_to_dict_str", "trs_to_dict_obj", "tract_to_dict", "tracts_to_dict", "tracts_to_list", "flag_lists"]
     for n in range(3000 if thorough else 400):
         ops = []
